@@ -109,7 +109,7 @@ func main() {
 	emitStartup(outDir, prog, mainPkg)
 	emitSvc(outDir, prog, fns, facts)
 	b, _ := json.MarshalIndent(map[string]interface{}{"functions": facts, "order": names, "cache_write_sites": mutSites}, "", " ")
-	_ = os.WriteFile(outDir+"/facts.json", b, 0o644)
+	writeAtomic(outDir+"/facts.json", b)
 }
 
 // resolveParamCalls: fixpoint of "parameter i of f is invoked" over parameters handed on, then one call edge
@@ -672,7 +672,7 @@ func emitLock(dir string, names []string, facts map[string]*fnFacts) {
 			len(f.Touches) > 0, len(f.Blocks) > 0, f.Entry != "", sep))
 	}
 	sb.WriteString("].\n")
-	_ = os.WriteFile(dir+"/Facts_lock.v", []byte(sb.String()), 0o644)
+	writeAtomic(dir+"/Facts_lock.v", []byte(sb.String()))
 }
 
 var mutSites []string
@@ -691,7 +691,7 @@ func emitMut(dir string, names []string, facts map[string]*fnFacts) {
 		sb.WriteString("  " + coqStr(s) + sep + "\n")
 	}
 	sb.WriteString("].\n")
-	_ = os.WriteFile(dir+"/Facts_mut.v", []byte(sb.String()), 0o644)
+	writeAtomic(dir+"/Facts_mut.v", []byte(sb.String()))
 }
 
 func emitStartup(dir string, prog *ssa.Program, mainPkg *ssa.Package) {
@@ -779,7 +779,7 @@ func emitStartup(dir string, prog *ssa.Program, mainPkg *ssa.Package) {
 	sb.WriteString("From NIPAM Require Import StartupCheck.\n\n")
 	sb.WriteString(fmt.Sprintf("Definition startup : startup_facts := mkStartup %d %d %d %d %v.\n",
 		order["list"], order["construct"], order["start"], order["run"], passesList))
-	_ = os.WriteFile(dir+"/Facts_startup.v", []byte(sb.String()), 0o644)
+	writeAtomic(dir+"/Facts_startup.v", []byte(sb.String()))
 }
 
 func derivesFrom(v, src ssa.Value, depth int) bool {
@@ -806,4 +806,18 @@ func derivesFrom(v, src ssa.Value, depth int) bool {
 		return derivesFrom(x.X, src, depth-1)
 	}
 	return false
+}
+
+// writeAtomic replaces path in one step (checks of several properties may run the translator at the same time) and stops
+// the run when the file cannot be written: a stale facts file must never be checked in place of the current one.
+func writeAtomic(path string, data []byte) {
+	tmp := fmt.Sprintf("%s.%d.tmp", path, os.Getpid())
+	if err := os.WriteFile(tmp, data, 0o644); err != nil {
+		fmt.Fprintln(os.Stderr, "translator: cannot write", tmp, err)
+		os.Exit(2)
+	}
+	if err := os.Rename(tmp, path); err != nil {
+		fmt.Fprintln(os.Stderr, "translator: cannot replace", path, err)
+		os.Exit(2)
+	}
 }
